@@ -38,7 +38,16 @@ Inductive value :=
 | VPair (a b : value)
 | VCtr (loc : nat)                   (* a counter object *)
 | VObj (c : cls)                     (* the instance of class c *)
-| VEvent (name : string) (fields : list (string * value)).
+| VEvent (name : string) (fields : list (string * value))
+| VInst (kind : string) (loc : nat) (fields : list (string * value))   (* an object of a class not looked into (a Pdb, its StdInOut) *)
+| VBound (self : value) (m : string)  (* a bound method / attribute of such an object: pdb.trace_dispatch *)
+| VFun (f : string).                  (* a closure: a translated parameterless function *)
+
+Definition cls_eqb (a b : cls) : bool :=
+  match a, b with
+  | Keeper, Keeper | Composer, Composer | Mapper, Mapper | Repeater, Repeater | Local, Local | PdbFactory, PdbFactory => true
+  | _, _ => false
+  end.
 
 Fixpoint veqb (a b : value) : bool :=
   match a, b with
@@ -51,7 +60,10 @@ Fixpoint veqb (a b : value) : bool :=
   | VId a1 a2, VId b1 b2 => veqb a1 b1 && veqb a2 b2
   | VPair a1 a2, VPair b1 b2 => veqb a1 b1 && veqb a2 b2
   | VCtr x, VCtr y => Nat.eqb x y
-  | VObj c, VObj c' => match c, c' with Keeper, Keeper | Composer, Composer | Mapper, Mapper | Repeater, Repeater => true | _, _ => false end
+  | VObj c, VObj c' => cls_eqb c c'
+  | VInst k l _, VInst k' l' _ => String.eqb k k' && Nat.eqb l l'      (* identity: the class and the allocation number *)
+  | VBound a1 m, VBound b1 m' => veqb a1 b1 && String.eqb m m'
+  | VFun f, VFun f' => String.eqb f f'
   | _, _ => false
   end.
 
@@ -63,9 +75,6 @@ Definition truthy (v : value) : bool :=
   | VInt z => negb (Z.eqb z 0)
   | _ => true
   end.
-
-Definition cls_eqb (a b : cls) : bool :=
-  match a, b with Keeper, Keeper | Composer, Composer | Mapper, Mapper | Repeater, Repeater => true | _, _ => false end.
 
 Definition env := string -> option value.
 Definition eempty : env := fun _ => None.
@@ -79,38 +88,41 @@ Record istate := mkI {
   i_kinds : cls -> string -> option ckind;
   i_heap : nat -> Z;                     (* counter objects: location -> next value *)
   i_next : nat;                          (* next free location *)
-  i_out : list value                     (* events put to queue_out, newest first *)
+  i_out : list value;                    (* events put to queue_out / calls of trace functions, newest first *)
+  i_nobj : nat                           (* number of opaque objects (StdInOut, CustomizedPdb, ..) created so far *)
 }.
 
 Definition st0 : istate :=
-  mkI (fun _ _ => VNone) (fun _ _ _ => None) (fun _ _ => None) (fun _ => 0) 0%nat [].
+  mkI (fun _ _ => VNone) (fun _ _ _ => None) (fun _ _ => None) (fun _ => 0) 0%nat [] 0%nat.
 
 Definition same_ref (c : cls) (n : string) (c' : cls) (n' : string) : bool := cls_eqb c c' && String.eqb n n'.
 
 Definition set_attr (st : istate) (c : cls) (n : string) (v : value) : istate :=
-  mkI (fun c' n' => if same_ref c' n' c n then v else i_attrs st c' n') (i_dicts st) (i_kinds st) (i_heap st) (i_next st) (i_out st).
+  mkI (fun c' n' => if same_ref c' n' c n then v else i_attrs st c' n') (i_dicts st) (i_kinds st) (i_heap st) (i_next st) (i_out st) (i_nobj st).
 Definition set_entry (st : istate) (d : cref) (k : value) (ov : option value) : istate :=
   mkI (i_attrs st)
       (fun c' n' x => if same_ref c' n' (fst d) (snd d) then (if veqb x k then ov else i_dicts st c' n' x) else i_dicts st c' n' x)
-      (i_kinds st) (i_heap st) (i_next st) (i_out st).
+      (i_kinds st) (i_heap st) (i_next st) (i_out st) (i_nobj st).
 Definition set_container (st : istate) (d : cref) (k : option ckind) : istate :=
   mkI (i_attrs st)
       (fun c' n' x => if same_ref c' n' (fst d) (snd d) then None else i_dicts st c' n' x)
       (fun c' n' => if same_ref c' n' (fst d) (snd d) then k else i_kinds st c' n')
-      (i_heap st) (i_next st) (i_out st).
+      (i_heap st) (i_next st) (i_out st) (i_nobj st).
 Definition clear_container (st : istate) (d : cref) : istate :=
   mkI (i_attrs st)
       (fun c' n' x => if same_ref c' n' (fst d) (snd d) then None else i_dicts st c' n' x)
-      (i_kinds st) (i_heap st) (i_next st) (i_out st).
+      (i_kinds st) (i_heap st) (i_next st) (i_out st) (i_nobj st).
 Definition set_heap (st : istate) (l : nat) (z : Z) : istate :=
-  mkI (i_attrs st) (i_dicts st) (i_kinds st) (fun l' => if Nat.eqb l' l then z else i_heap st l') (i_next st) (i_out st).
+  mkI (i_attrs st) (i_dicts st) (i_kinds st) (fun l' => if Nat.eqb l' l then z else i_heap st l') (i_next st) (i_out st) (i_nobj st).
 Definition alloc (st : istate) (z : Z) : istate * nat :=
-  (mkI (i_attrs st) (i_dicts st) (i_kinds st) (fun l' => if Nat.eqb l' (i_next st) then z else i_heap st l') (S (i_next st)) (i_out st),
+  (mkI (i_attrs st) (i_dicts st) (i_kinds st) (fun l' => if Nat.eqb l' (i_next st) then z else i_heap st l') (S (i_next st)) (i_out st) (i_nobj st),
    i_next st).
 Definition put_out (st : istate) (v : value) : istate :=
-  mkI (i_attrs st) (i_dicts st) (i_kinds st) (i_heap st) (i_next st) (v :: i_out st).
+  mkI (i_attrs st) (i_dicts st) (i_kinds st) (i_heap st) (i_next st) (v :: i_out st) (i_nobj st).
 Definition clear_out (st : istate) : istate :=
-  mkI (i_attrs st) (i_dicts st) (i_kinds st) (i_heap st) (i_next st) [].
+  mkI (i_attrs st) (i_dicts st) (i_kinds st) (i_heap st) (i_next st) [] (i_nobj st).
+Definition new_obj (st : istate) : istate * nat :=
+  (mkI (i_attrs st) (i_dicts st) (i_kinds st) (i_heap st) (i_next st) (i_out st) (S (i_nobj st)), i_nobj st).
 Definition lookup (st : istate) (d : cref) (k : value) : option value := i_dicts st (fst d) (snd d) k.
 
 (** who is executing *)
@@ -206,6 +218,8 @@ Definition eval_body (ev : istate -> env -> expr -> eres) (exb : istate -> env -
       match ev st en e with
       | EV st' en' (VId tn kn) =>
         if String.eqb f "thread_no" then EV st' en' tn else if String.eqb f "task_no" then EV st' en' kn else EBad "field"
+      | EV st' en' (VInst k l fs) =>
+        EV st' en' (match find_str fs f with Some v => v | None => VBound (VInst k l fs) f end)
       | EV _ _ _ => EBad "field of a non-id"
       | other => other
       end
@@ -363,6 +377,18 @@ Definition eval_body (ev : istate -> env -> expr -> eres) (exb : istate -> env -
         | EV st2 _ v => EV st2 en' v
         | other => other
         end
+      | EV st' en' (VFun g) =>
+        match find_str (p_functions P) g with
+        | None => EBad "no such function"
+        | Some body =>
+          match exb st' eempty body with
+          | RNorm st2 _ => EV st2 en' VNone
+          | RRet st2 v => EV st2 en' v
+          | RExc st2 x => EExc st2 x
+          | RHook _ _ _ _ _ _ => EBad "hook call inside an expression"
+          | RBad w => EBad w
+          end
+        end
       | EV _ _ _ => EBad "call of a non-callable"
       | other => other
       end
@@ -401,6 +427,30 @@ Definition eval_body (ev : istate -> env -> expr -> eres) (exb : istate -> env -
     | ENewObj c =>
       match call_method exb st en c "__init__" [] with
       | EV st' _ _ => EV st' en (VObj c)
+      | other => other
+      end
+    | ENewInst kind fields =>
+      match eval_list ev st en (map snd fields) [] with
+      | inl (st', en', vs) => let '(st2, l) := new_obj st' in EV st2 en' (VInst kind l (combine (map fst fields) vs))
+      | inr other => other
+      end
+    | EFunRef f => EV st en (VFun f)
+    | ECallArgs f args =>
+      match ev st en f with
+      | EV st1 en1 vf =>
+        match eval_list ev st1 en1 args [] with
+        | inl (st2, en2, vs) =>
+          (* WithContext(trace, ..) calls `trace` with the same arguments *)
+          let target := match vf with
+                        | VInst k _ fs => if String.eqb k "WithContext" then match find_str fs "trace" with Some t => t | None => VNone end else vf
+                        | _ => vf
+                        end in
+          match target with
+          | VBound self m => EV (put_out st2 (VEvent m [("self", self); ("arg", hd VNone vs)])) en2 VNone
+          | _ => EBad "call of something that is not a trace function"
+          end
+        | inr other => other
+        end
       | other => other
       end
     end.
@@ -657,17 +707,45 @@ Definition istep (nl : actor -> bool) (lp : Z -> Z -> Z) (y : sys) (l : label) :
     end
   end.
 
-(** the plugins are instantiated: TaskAndThreadKeeper() (which creates its ThreadTaskIdComposer) and
-    TaskOrThreadToTraceMapper() *)
+(** ---- the USE of the trace number: the hook local_trace_func(frame, event, arg) called in actor a
+    (by the global trace function, for every trace event of a).  The result is the object whose trace function
+    received the call (a CustomizedPdb instance), if exactly one received it with the same first argument. *)
+Definition decode_dispatch (evs : list value) (x : Z) : option value :=
+  match evs with
+  | [VEvent m fs] =>
+    if String.eqb m "trace_dispatch" then
+      match find_str fs "self", find_str fs "arg" with
+      | Some self, Some (VInt x') => if Z.eqb x x' then Some self else None
+      | _, _ => None
+      end
+    else None
+  | _ => None
+  end.
+
+Definition idispatch (nl : actor -> bool) (lp : Z -> Z -> Z) (y : sys) (a : actor) (x : Z) : sys * option value :=
+  let st := clear_out (y_st y) in
+  match impl_frames (p_hookimpls P) "local_trace_func" [("frame", VInt x); ("event", VNone); ("arg", VNone)] with
+  | None => (y, None)
+  | Some fs =>
+    match drive FUEL (mkCx a (nl a) lp) no_cut st fs with
+    | DDone st' => (mkSys st' (y_susp y), decode_dispatch (i_out st') x)
+    | DSusp st' _ | DExc st' _ => (mkSys st' (y_susp y), None)
+    | DBad _ => (y, None)
+    end
+  end.
+
+(** the plugins are instantiated -- TaskAndThreadKeeper() (which creates its ThreadTaskIdComposer),
+    TaskOrThreadToTraceMapper() -- and the hook init(hook=..) of LocalTraceFunc and PdbInstanceFactory has run *)
 Definition iinit : sys :=
   let cx := mkCx (0, None) false (fun _ _ => 0) in
-  match find_method (p_methods P) Keeper "__init__", find_method (p_methods P) Mapper "__init__" with
-  | Some ([], kb), Some ([], mb) =>
-    match drive FUEL cx no_cut st0 [(kb, eempty); (mb, eempty)] with
+  match find_method (p_methods P) Keeper "__init__", find_method (p_methods P) Mapper "__init__",
+        find_method (p_methods P) Local "init", find_method (p_methods P) PdbFactory "init" with
+  | Some ([], kb), Some ([], mb), Some ([p1], lb), Some ([p2], pb) =>
+    match drive FUEL cx no_cut st0 [(kb, eempty); (mb, eempty); (lb, eupd eempty p1 VNone); (pb, eupd eempty p2 VNone)] with
     | DDone st => mkSys st (fun _ => None)
     | _ => mkSys st0 (fun _ => None)
     end
-  | _, _ => mkSys st0 (fun _ => None)
+  | _, _, _, _ => mkSys st0 (fun _ => None)
   end.
 
 Fixpoint itrace_from (nl : actor -> bool) (lp : Z -> Z -> Z) (y : sys) (ls : list label) : list (label * out) :=
